@@ -76,6 +76,7 @@ func main() {
 	t0 := time.Now()
 	shapes := map[string]int{}
 	reqs := 0
+	recycled, recycledRuns := 0, 0
 	run := func(sc *ib.Scenario) (*ib.Result, []ib.Finding) {
 		res := ib.Run(sc)
 		fs := ib.Monitor(res)
@@ -106,6 +107,10 @@ func main() {
 		shape := ib.Classify(res)
 		shapes[shape.Name()]++
 		reqs += len(res.Requests)
+		recycled += len(res.Reused)
+		if len(res.Reused) > 0 {
+			recycledRuns++
+		}
 		faulted := false
 		for _, r := range res.Requests {
 			if r.Fault != "answer" {
@@ -160,5 +165,5 @@ func main() {
 		w.Add("("+ib.CoqCase(res)+")", side)
 	}
 	w.Close()
-	fmt.Printf("RAN %d scenarios, %d produce requests, shapes %v, %.1fs\n", len(scs), reqs, shapes, time.Since(t0).Seconds())
+	fmt.Printf("RAN %d scenarios, %d produce requests, %d messages sent in recycled objects (%d scenarios), shapes %v, %.1fs\n", len(scs), reqs, recycled, recycledRuns, shapes, time.Since(t0).Seconds())
 }
